@@ -1,4 +1,5 @@
 import ImathVerif.Lemmas.C16Lemmas
+import ImathVerif.Lemmas.C16LenReal
 import ImathVerif.Spec.MatSpec
 import ImathVerif.Gen.C05
 import ImathVerif.Gen.C16Frustum
@@ -676,5 +677,197 @@ theorem completelyContainsBox_persp_eq (tmin : α) (sqrt : α → α) (n f l r t
 theorem completelyContainsBox_ortho_eq (tmin : α) (sqrt : α → α) (n f l r t b : α) (M : M44 α) (bx : Box3 α) :
     Gen.FrustumTest.completelyContainsBox_ortho tmin sqrt n f l r t b M bx = ftBox (planesM_ortho tmin sqrt n f l r t b M) bx 1 := by
   ft_box Gen.FrustumTest.completelyContainsBox_ortho planesM_ortho
+
+/-! ### culling, stated on the generated functions (any camera matrix `M`; the six planes are `planes (p, M)`) -/
+
+/-- `isVisible (sphere) = false` ⇒ the ball has no point strictly inside all six planes (never false for an object
+that reaches the interior) -/
+theorem isVisibleSphere_persp_false (tmin : α) (sqrt : α → α) (hlen : LenSpec (Gen.V3.length tmin sqrt)) (n f l r t b : α)
+    (M : M44 α) (s : Sphere3 α) (hr : 0 ≤ s.radius)
+    (h : Gen.FrustumTest.isVisibleSphere_persp tmin sqrt n f l r t b M s = false) (q : V3 α) (hq : sphereMem s q) :
+    ¬ strictlyInAllPlanes (planesM_persp tmin sqrt n f l r t b M) q :=
+  ftSphere_visible_false _ s (planesM_persp_normals_le_one tmin sqrt hlen n f l r t b M) hr
+    (by rw [← isVisibleSphere_persp_eq]; exact h) q hq
+theorem isVisibleSphere_ortho_false (tmin : α) (sqrt : α → α) (hlen : LenSpec (Gen.V3.length tmin sqrt)) (n f l r t b : α)
+    (M : M44 α) (s : Sphere3 α) (hr : 0 ≤ s.radius)
+    (h : Gen.FrustumTest.isVisibleSphere_ortho tmin sqrt n f l r t b M s = false) (q : V3 α) (hq : sphereMem s q) :
+    ¬ strictlyInAllPlanes (planesM_ortho tmin sqrt n f l r t b M) q :=
+  ftSphere_visible_false _ s (planesM_ortho_normals_le_one tmin sqrt hlen n f l r t b M) hr
+    (by rw [← isVisibleSphere_ortho_eq]; exact h) q hq
+/-- `completelyContains (sphere) = true` ⇒ every point of the ball is strictly inside all six planes -/
+theorem completelyContainsSphere_persp_true (tmin : α) (sqrt : α → α) (hlen : LenSpec (Gen.V3.length tmin sqrt)) (n f l r t b : α)
+    (M : M44 α) (s : Sphere3 α) (hr : 0 ≤ s.radius)
+    (h : Gen.FrustumTest.completelyContainsSphere_persp tmin sqrt n f l r t b M s = true) (q : V3 α) (hq : sphereMem s q) :
+    strictlyInAllPlanes (planesM_persp tmin sqrt n f l r t b M) q :=
+  ftSphere_contains_true _ s (planesM_persp_normals_le_one tmin sqrt hlen n f l r t b M) hr
+    (by rw [← completelyContainsSphere_persp_eq]; exact h) q hq
+theorem completelyContainsSphere_ortho_true (tmin : α) (sqrt : α → α) (hlen : LenSpec (Gen.V3.length tmin sqrt)) (n f l r t b : α)
+    (M : M44 α) (s : Sphere3 α) (hr : 0 ≤ s.radius)
+    (h : Gen.FrustumTest.completelyContainsSphere_ortho tmin sqrt n f l r t b M s = true) (q : V3 α) (hq : sphereMem s q) :
+    strictlyInAllPlanes (planesM_ortho tmin sqrt n f l r t b M) q :=
+  ftSphere_contains_true _ s (planesM_ortho_normals_le_one tmin sqrt hlen n f l r t b M) hr
+    (by rw [← completelyContainsSphere_ortho_eq]; exact h) q hq
+/-- `isVisible (box) = false` ⇒ the box has no point strictly inside all six planes (no hypothesis on the normals:
+the support-function bound `|n|·extent` is exact) -/
+theorem isVisibleBox_persp_false (tmin : α) (sqrt : α → α) (n f l r t b : α) (M : M44 α) (bx : Box3 α)
+    (h : Gen.FrustumTest.isVisibleBox_persp tmin sqrt n f l r t b M bx = false) (q : V3 α) (hq : boxMem bx q) :
+    ¬ strictlyInAllPlanes (planesM_persp tmin sqrt n f l r t b M) q :=
+  ftBox_visible_false _ bx (by rw [← isVisibleBox_persp_eq]; exact h) q hq
+theorem isVisibleBox_ortho_false (tmin : α) (sqrt : α → α) (n f l r t b : α) (M : M44 α) (bx : Box3 α)
+    (h : Gen.FrustumTest.isVisibleBox_ortho tmin sqrt n f l r t b M bx = false) (q : V3 α) (hq : boxMem bx q) :
+    ¬ strictlyInAllPlanes (planesM_ortho tmin sqrt n f l r t b M) q :=
+  ftBox_visible_false _ bx (by rw [← isVisibleBox_ortho_eq]; exact h) q hq
+/-- `completelyContains (box) = true` ⇒ every point of the box is strictly inside all six planes -/
+theorem completelyContainsBox_persp_true (tmin : α) (sqrt : α → α) (n f l r t b : α) (M : M44 α) (bx : Box3 α)
+    (h : Gen.FrustumTest.completelyContainsBox_persp tmin sqrt n f l r t b M bx = true) (q : V3 α) (hq : boxMem bx q) :
+    strictlyInAllPlanes (planesM_persp tmin sqrt n f l r t b M) q :=
+  ftBox_contains_true _ bx (by rw [← completelyContainsBox_persp_eq]; exact h) q hq
+theorem completelyContainsBox_ortho_true (tmin : α) (sqrt : α → α) (n f l r t b : α) (M : M44 α) (bx : Box3 α)
+    (h : Gen.FrustumTest.completelyContainsBox_ortho tmin sqrt n f l r t b M bx = true) (q : V3 α) (hq : boxMem bx q) :
+    strictlyInAllPlanes (planesM_ortho tmin sqrt n f l r t b M) q :=
+  ftBox_contains_true _ bx (by rw [← completelyContainsBox_ortho_eq]; exact h) q hq
+
+/-! ### end to end, identity camera: the six stored planes are those of `planes (p)`, whose strict intersection is the
+interior of the frustum.  (For a general camera matrix the link "planes (p, M) = planes (p) mapped by M" is
+`planesM_*_affine` below for affine orientation-preserving `M`; mirrored or projective `M` are not covered: `_partial`.) -/
+theorem isVisiblePoint_persp_identity (tmin : α) (sqrt : α → α) (hlen : LenSpec (Gen.V3.length tmin sqrt)) (n f l r t b : α)
+    (hn : 0 < n) (hf : f ≠ 0) (hlr : l < r) (hbt : b < t) (v : V3 α) :
+    Gen.FrustumTest.isVisiblePoint_persp tmin sqrt n f l r t b identity44 v = true ↔ interiorPersp n f l r t b v := by
+  rw [isVisiblePoint_persp, planesM_persp_identity tmin sqrt hlen n f l r t b hn hf hlr hbt,
+    planes_persp_interior tmin sqrt hlen n f l r t b hn hlr hbt]
+theorem isVisiblePoint_ortho_identity (tmin : α) (sqrt : α → α) (hlen : LenSpec (Gen.V3.length tmin sqrt)) (n f l r t b : α)
+    (hnf : n < f) (hlr : l < r) (hbt : b < t) (v : V3 α) :
+    Gen.FrustumTest.isVisiblePoint_ortho tmin sqrt n f l r t b identity44 v = true ↔ interiorOrtho n f l r t b v := by
+  rw [isVisiblePoint_ortho, planesM_ortho_identity tmin sqrt hlen n f l r t b hnf hlr hbt,
+    planes_ortho_interior tmin sqrt hlen n f l r t b]
+
+
+/-! ### `planes (p, M)` = the planes of `planes (p)` mapped by `M`, for affine orientation-preserving `M`
+(rigid motions and uniform or non-uniform positive scalings included).  Stated on half-spaces: a point `q` is inside a
+plane of `planes (p)` iff its image `q * M` is inside the corresponding plane of `planes (p, M)`.
+NOT covered (`_partial` with respect to "all camera matrices"): mirrored `M` (`det < 0`: the code's normals then point
+INWARDS — measured by c16_corr.cpp, reported as a limitation) and projective `M`. -/
+theorem planesM_persp_affine (tmin : α) (sqrt : α → α) (hlen : LenSpec (Gen.V3.length tmin sqrt)) (n f l r t b : α)
+    (hn : 0 < n) (hf : f ≠ 0) (hlr : l < r) (hbt : b < t) (M : M44 α) (hM : IsAffine M) (hdet : 0 < det3 M) (q : V3 α) :
+    (strictlyInAllPlanes (planesM_persp tmin sqrt n f l r t b M) (Gen.V3.mulM44 q M) ↔ interiorPersp n f l r t b q) ∧
+    (inAllPlanes (planesM_persp tmin sqrt n f l r t b M) (Gen.V3.mulM44 q M) ↔ regionPersp n f l r t b q) := by
+  have hn' := ne_of_gt hn
+  have h1' : r - l ≠ 0 := ne_of_gt (sub_pos.mpr hlr)
+  have h2' : t - b ≠ 0 := ne_of_gt (sub_pos.mpr hbt)
+  have hs : f / n ≠ 0 := div_ne_zero hf hn'
+  obtain ⟨a0, a1, a2, a3, a4, a5⟩ := planesM_persp_struct tmin sqrt n f l r t b M
+  obtain ⟨i0, i1, i2, i3, i4, i5⟩ := planesM_persp_struct tmin sqrt n f l r t b identity44
+  simp only [mulM44_identity] at i0 i1 i2 i3 i4 i5
+  have key := planes_pos_factors (planesM_persp tmin sqrt n f l r t b M) (planesM_persp tmin sqrt n f l r t b identity44)
+    (Gen.V3.mulM44 q M) q
+    (by obtain ⟨κ, hκ, e⟩ := planeThroughIf_affine hlen M hM hdet ⟨0, 0, 0⟩ ⟨r, t, -n⟩ ⟨l, t, -n⟩
+          (by rw [cross_top n l r t]; exact normSq_ne_zero_of_y _ _ _ (mul_ne_zero hn' h1'))
+        exact ⟨κ, hκ, by simp only [planesM_persp, a0, i0]; exact e q⟩)
+    (by obtain ⟨κ, hκ, e⟩ := planeThroughIf_affine hlen M hM hdet ⟨0, 0, 0⟩ ⟨r, b, -n⟩ ⟨r, t, -n⟩
+          (by rw [cross_right n r t b]; exact normSq_ne_zero_of_x _ _ _ (mul_ne_zero hn' h2'))
+        exact ⟨κ, hκ, by simp only [planesM_persp, a1, i1]; exact e q⟩)
+    (by obtain ⟨κ, hκ, e⟩ := planeThroughIf_affine hlen M hM hdet ⟨0, 0, 0⟩ ⟨l, b, -n⟩ ⟨r, b, -n⟩
+          (by rw [cross_bottom n l r b]; exact normSq_ne_zero_of_y _ _ _ (neg_ne_zero.mpr (mul_ne_zero hn' h1')))
+        exact ⟨κ, hκ, by simp only [planesM_persp, a2, i2]; exact e q⟩)
+    (by obtain ⟨κ, hκ, e⟩ := planeThroughIf_affine hlen M hM hdet ⟨0, 0, 0⟩ ⟨l, t, -n⟩ ⟨l, b, -n⟩
+          (by rw [cross_left n l t b]; exact normSq_ne_zero_of_x _ _ _ (neg_ne_zero.mpr (mul_ne_zero hn' h2')))
+        exact ⟨κ, hκ, by simp only [planesM_persp, a3, i3]; exact e q⟩)
+    (by obtain ⟨κ, hκ, e⟩ := planeThroughIf_affine hlen M hM hdet ⟨l, b, -n⟩ ⟨r, b, -n⟩ ⟨r, t, -n⟩
+          (by rw [cross_near n l r t b]; exact normSq_ne_zero_of_z _ _ _ (mul_ne_zero h1' h2'))
+        exact ⟨κ, hκ, by simp only [planesM_persp, a4, i4]; exact e q⟩)
+    (by obtain ⟨κ, hκ, e⟩ := planeThroughIf_affine hlen M hM hdet ⟨f / n * l, f / n * b, -f⟩ ⟨f / n * l, f / n * t, -f⟩ ⟨f / n * r, f / n * t, -f⟩
+          (by rw [cross_far f (f / n * l) (f / n * r) (f / n * t) (f / n * b)]
+              refine normSq_ne_zero_of_z _ _ _ (neg_ne_zero.mpr ?_)
+              have : (f / n * r - f / n * l) * (f / n * t - f / n * b) = (f / n) * (f / n) * ((r - l) * (t - b)) := by ring
+              rw [this]; exact mul_ne_zero (mul_ne_zero hs hs) (mul_ne_zero h1' h2'))
+        exact ⟨κ, hκ, by simp only [planesM_persp, a5, i5]; exact e q⟩)
+  rw [key.1, key.2, planesM_persp_identity tmin sqrt hlen n f l r t b hn hf hlr hbt,
+    planes_persp_interior tmin sqrt hlen n f l r t b hn hlr hbt, planes_persp_region tmin sqrt hlen n f l r t b hn hlr hbt]
+  exact ⟨Iff.rfl, Iff.rfl⟩
+
+theorem planesM_ortho_affine (tmin : α) (sqrt : α → α) (hlen : LenSpec (Gen.V3.length tmin sqrt)) (n f l r t b : α)
+    (hnf : n < f) (hlr : l < r) (hbt : b < t) (M : M44 α) (hM : IsAffine M) (hdet : 0 < det3 M) (q : V3 α) :
+    (strictlyInAllPlanes (planesM_ortho tmin sqrt n f l r t b M) (Gen.V3.mulM44 q M) ↔ interiorOrtho n f l r t b q) ∧
+    (inAllPlanes (planesM_ortho tmin sqrt n f l r t b M) (Gen.V3.mulM44 q M) ↔ regionOrtho n f l r t b q) := by
+  have d1 : f - n ≠ 0 := ne_of_gt (sub_pos.mpr hnf)
+  have h1' : r - l ≠ 0 := ne_of_gt (sub_pos.mpr hlr)
+  have h2' : t - b ≠ 0 := ne_of_gt (sub_pos.mpr hbt)
+  obtain ⟨a0, a1, a2, a3, a4, a5⟩ := planesM_ortho_struct tmin sqrt n f l r t b M
+  obtain ⟨i0, i1, i2, i3, i4, i5⟩ := planesM_ortho_struct tmin sqrt n f l r t b identity44
+  simp only [mulM44_identity] at i0 i1 i2 i3 i4 i5
+  have c0 : cross (vsub ⟨r, t, -f⟩ ⟨r, t, -n⟩) (vsub ⟨l, t, -f⟩ ⟨r, t, -n⟩) = (⟨0, (f - n) * (r - l), 0⟩ : V3 α) := by
+    simp only [cross, vsub]; congr 1 <;> ring
+  have c1 : cross (vsub ⟨r, b, -f⟩ ⟨r, b, -n⟩) (vsub ⟨r, t, -f⟩ ⟨r, b, -n⟩) = (⟨(f - n) * (t - b), 0, 0⟩ : V3 α) := by
+    simp only [cross, vsub]; congr 1 <;> ring
+  have c2 : cross (vsub ⟨l, b, -f⟩ ⟨l, b, -n⟩) (vsub ⟨r, b, -f⟩ ⟨l, b, -n⟩) = (⟨0, -((f - n) * (r - l)), 0⟩ : V3 α) := by
+    simp only [cross, vsub]; congr 1 <;> ring
+  have c3 : cross (vsub ⟨l, t, -f⟩ ⟨l, t, -n⟩) (vsub ⟨l, b, -f⟩ ⟨l, t, -n⟩) = (⟨-((f - n) * (t - b)), 0, 0⟩ : V3 α) := by
+    simp only [cross, vsub]; congr 1 <;> ring
+  have key := planes_pos_factors (planesM_ortho tmin sqrt n f l r t b M) (planesM_ortho tmin sqrt n f l r t b identity44)
+    (Gen.V3.mulM44 q M) q
+    (by obtain ⟨κ, hκ, e⟩ := planeThroughIf_affine hlen M hM hdet ⟨r, t, -n⟩ ⟨r, t, -f⟩ ⟨l, t, -f⟩
+          (by rw [c0]; exact normSq_ne_zero_of_y _ _ _ (mul_ne_zero d1 h1'))
+        exact ⟨κ, hκ, by simp only [planesM_ortho, a0, i0]; exact e q⟩)
+    (by obtain ⟨κ, hκ, e⟩ := planeThroughIf_affine hlen M hM hdet ⟨r, b, -n⟩ ⟨r, b, -f⟩ ⟨r, t, -f⟩
+          (by rw [c1]; exact normSq_ne_zero_of_x _ _ _ (mul_ne_zero d1 h2'))
+        exact ⟨κ, hκ, by simp only [planesM_ortho, a1, i1]; exact e q⟩)
+    (by obtain ⟨κ, hκ, e⟩ := planeThroughIf_affine hlen M hM hdet ⟨l, b, -n⟩ ⟨l, b, -f⟩ ⟨r, b, -f⟩
+          (by rw [c2]; exact normSq_ne_zero_of_y _ _ _ (neg_ne_zero.mpr (mul_ne_zero d1 h1')))
+        exact ⟨κ, hκ, by simp only [planesM_ortho, a2, i2]; exact e q⟩)
+    (by obtain ⟨κ, hκ, e⟩ := planeThroughIf_affine hlen M hM hdet ⟨l, t, -n⟩ ⟨l, t, -f⟩ ⟨l, b, -f⟩
+          (by rw [c3]; exact normSq_ne_zero_of_x _ _ _ (neg_ne_zero.mpr (mul_ne_zero d1 h2')))
+        exact ⟨κ, hκ, by simp only [planesM_ortho, a3, i3]; exact e q⟩)
+    (by obtain ⟨κ, hκ, e⟩ := planeThroughIf_affine hlen M hM hdet ⟨l, b, -n⟩ ⟨r, b, -n⟩ ⟨r, t, -n⟩
+          (by rw [cross_near n l r t b]; exact normSq_ne_zero_of_z _ _ _ (mul_ne_zero h1' h2'))
+        exact ⟨κ, hκ, by simp only [planesM_ortho, a4, i4]; exact e q⟩)
+    (by obtain ⟨κ, hκ, e⟩ := planeThroughIf_affine hlen M hM hdet ⟨l, b, -f⟩ ⟨l, t, -f⟩ ⟨r, t, -f⟩
+          (by rw [cross_far f l r t b]; exact normSq_ne_zero_of_z _ _ _ (neg_ne_zero.mpr (mul_ne_zero h1' h2')))
+        exact ⟨κ, hκ, by simp only [planesM_ortho, a5, i5]; exact e q⟩)
+  rw [key.1, key.2, planesM_ortho_identity tmin sqrt hlen n f l r t b hnf hlr hbt,
+    planes_ortho_interior tmin sqrt hlen n f l r t b, planes_ortho_region tmin sqrt hlen n f l r t b]
+  exact ⟨Iff.rfl, Iff.rfl⟩
+
+/-- **isVisible (point)** is membership in the interior of the frustum moved by the camera matrix (affine, orientation
+preserving): the world point `q * M` is visible iff the camera-space point `q` is in the open frustum -/
+theorem isVisiblePoint_persp_affine (tmin : α) (sqrt : α → α) (hlen : LenSpec (Gen.V3.length tmin sqrt)) (n f l r t b : α)
+    (hn : 0 < n) (hf : f ≠ 0) (hlr : l < r) (hbt : b < t) (M : M44 α) (hM : IsAffine M) (hdet : 0 < det3 M) (q : V3 α) :
+    Gen.FrustumTest.isVisiblePoint_persp tmin sqrt n f l r t b M (Gen.V3.mulM44 q M) = true ↔ interiorPersp n f l r t b q := by
+  rw [isVisiblePoint_persp]; exact (planesM_persp_affine tmin sqrt hlen n f l r t b hn hf hlr hbt M hM hdet q).1
+theorem isVisiblePoint_ortho_affine (tmin : α) (sqrt : α → α) (hlen : LenSpec (Gen.V3.length tmin sqrt)) (n f l r t b : α)
+    (hnf : n < f) (hlr : l < r) (hbt : b < t) (M : M44 α) (hM : IsAffine M) (hdet : 0 < det3 M) (q : V3 α) :
+    Gen.FrustumTest.isVisiblePoint_ortho tmin sqrt n f l r t b M (Gen.V3.mulM44 q M) = true ↔ interiorOrtho n f l r t b q := by
+  rw [isVisiblePoint_ortho]; exact (planesM_ortho_affine tmin sqrt hlen n f l r t b hnf hlr hbt M hM hdet q).1
+/-- a rigid-plus-uniform-scale camera matrix satisfying the hypotheses: scale 2, rotate 90° about z, translate (5,6,7) -/
+example : IsAffine (⟨0, 2, 0, 0, -2, 0, 0, 0, 0, 0, 2, 0, 5, 6, 7, 1⟩ : M44 ℚ) ∧ 0 < det3 (⟨0, 2, 0, 0, -2, 0, 0, 0, 0, 0, 2, 0, 5, 6, 7, 1⟩ : M44 ℚ) := by
+  constructor
+  · exact ⟨rfl, rfl, rfl, rfl⟩
+  · norm_num [det3]
+
+/-! ## non-vacuity: a concrete asymmetric frustum over ℚ (near 1, far 10, window [-2,3] × [-1,2]) and the length hypothesis -/
+example : (1 : ℚ) ≠ 0 ∧ (10 : ℚ) ≠ 0 ∧ (1 : ℚ) ≠ 10 ∧ (-2 : ℚ) ≠ 3 ∧ (-1 : ℚ) ≠ 2 ∧ (0 : ℚ) < 1 ∧ (1 : ℚ) < 10 ∧ (-2 : ℚ) < 3 ∧ (-1 : ℚ) < 2 := by
+  norm_num
+/-- far-top-right corner (scaled by far/near) ↦ (1,1,1); near-bottom-left ↦ (−1,−1,−1) -/
+example : Gen.V3.mulM44 ⟨30, 20, -10⟩ (Gen.Frustum.projectionMatrix_persp (1 : ℚ) 10 (-2) 3 2 (-1)) = ⟨1, 1, 1⟩ ∧
+    Gen.V3.mulM44 ⟨-2, -1, -1⟩ (Gen.Frustum.projectionMatrix_persp (1 : ℚ) 10 (-2) 3 2 (-1)) = ⟨-1, -1, -1⟩ := by
+  constructor <;> norm_num [Gen.V3.mulM44, Gen.Frustum.projectionMatrix_persp]
+example : Gen.V3.mulM44 ⟨3, 2, -10⟩ (Gen.Frustum.projectionMatrix_ortho (1 : ℚ) 10 (-2) 3 2 (-1)) = ⟨1, 1, 1⟩ := by
+  norm_num [Gen.V3.mulM44, Gen.Frustum.projectionMatrix_ortho]
+/-- a point that projects inside the screen, and its depth -/
+example : Gen.Frustum.projectPointToScreen_persp (1 : ℚ) 10 (-2) 3 2 (-1) ⟨1, 1, -2⟩ = ⟨0, 0⟩ ∧
+    Gen.Frustum.normalizedZToDepth_persp (1 : ℚ) 10 (-2) 3 2 (-1) (1 / 2) = -20 / 11 := by
+  constructor <;> norm_num [Gen.Frustum.projectPointToScreen_persp, Gen.Frustum.normalizedZToDepth_persp]
+/-- the region and the interior are inhabited, and a point outside exists -/
+example : interiorPersp (1 : ℚ) 10 (-2) 3 2 (-1) ⟨1, 1, -2⟩ ∧ regionPersp (1 : ℚ) 10 (-2) 3 2 (-1) ⟨3, 2, -1⟩ ∧
+    ¬ regionPersp (1 : ℚ) 10 (-2) 3 2 (-1) ⟨0, 0, 0⟩ := by
+  refine ⟨?_, ?_, ?_⟩ <;> norm_num [interiorPersp, regionPersp]
+/-- the length hypothesis is satisfiable: the extracted `Vec3::length` over ℝ with the real square root (all 65 paths) -/
+example (tmin : ℝ) : LenSpec (Gen.V3.length tmin Real.sqrt) := lenSpec_real tmin
+/-- … so e.g. the region theorem applies to the real frustum with these numbers -/
+example (p : V3 ℝ) : inAllPlanes (Gen.Frustum.planes_persp (2⁻¹ ^ 1022) Real.sqrt 1 10 (-2) 3 2 (-1)) p ↔ regionPersp 1 10 (-2) 3 2 (-1) p :=
+  planes_persp_region _ _ (lenSpec_real _) 1 10 (-2) 3 2 (-1) (by norm_num) (by norm_num) (by norm_num) p
+/-- sphere / box hypotheses: the unit ball and the unit box -/
+example : (0 : ℚ) ≤ (⟨⟨0, 0, -3⟩, 1⟩ : Sphere3 ℚ).radius ∧ sphereMem (⟨⟨0, 0, -3⟩, 1⟩ : Sphere3 ℚ) ⟨0, 1, -3⟩ ∧
+    boxMem (⟨⟨-1, -1, -4⟩, ⟨1, 1, -2⟩⟩ : Box3 ℚ) ⟨0, 1, -3⟩ := by
+  refine ⟨?_, ?_, ?_⟩ <;> norm_num [sphereMem, boxMem]
 
 end ImathVerif.C16
